@@ -513,7 +513,14 @@ def run(ctx):
                    " is called without testing is_aead_2022(): a legacy cipher's ordinary password is parsed as a base64 PSK on this path (or vice versa)"))
     # G7 the identity-key chain keeps the order of the configured password ("iPSK0:iPSK1:..:uPSK"): the PSK parser walks the segments front
     # to back; a reversed walk (rsplit / rev) yields the same keys for one or two segments and a wrong header chain for three or more
-    psk_parsers = [b for b in prog.prod_bodies() if b.root == b.defp and "Vec<[u8;" in b.local_ty(0) and b.argc == 1 and b.local_ty(1) == "&str"]
+    def _returns_key_chain(ty):
+        if "Vec<[u8;" in ty:
+            return True
+        for it_ in prog.items:       # a named struct instead of a tuple
+            if it_["k"] == "struct" and re.search(r"\b" + re.escape(last_seg(it_["path"])) + r"\b", ty) and any("Vec<[u8;" in ft_ for (_, ft_) in it_["fields"]):
+                return True
+        return False
+    psk_parsers = [b for b in prog.prod_bodies() if b.root == b.defp and b.argc == 1 and b.local_ty(1) == "&str" and _returns_key_chain(b.local_ty(0))]
     ctx.floor("G7", "PSK parsers returning the identity-key chain", 1, len(psk_parsers))
     for b in psk_parsers:
         rev = []
